@@ -407,25 +407,30 @@ def run(db, cx):
               "selecting T^m; any other pairing makes skip-ahead differ from stepping")
 
     # ============================================================ 4. digits
+    # A5 (lib/bitpath.py): jump(count, table) interpreted for all 64-bit counts at once
     fjd = one(db, ENG + "::jump", lambda f: len(f.r["params"]) == 2)
-    dl = digit_loop(fjd)
-    L = 32
     m = re.search(r"Array<celeritas::Array<unsigned int, 5>, (\d+)>", fjd.r["params"][1]["cty"])
     cx.require(m, "cannot read the jump-table length from the parameter type")
     L = int(m.group(1))
-    cx.ob("C13.4-digit-loop", "mask+1 == 2^shift", dl["mask"] + 1 == 1 << dl["shift"],
-          "mask %d shift %d" % (dl["mask"], dl["shift"]), short(fjd.loc),
-          why="each loop iteration must consume exactly one base-2^shift digit of the count")
-    cx.ob("C13.4-digit-loop", "table base 4 == 2^shift", 4 == 1 << dl["shift"],
-          "tables hold z^(4^i); digit base %d" % (1 << dl["shift"]), short(fjd.loc))
-    cx.ob("C13.4-digit-loop", "table length * shift >= 64", L * dl["shift"] >= 64,
-          "%d entries * %d bits" % (L, dl["shift"]), short(fjd.loc),
-          why="otherwise a large 64-bit count indexes past the table")
-    for key, text in (("inner_ok", "inner loop applies jump(table[idx]) exactly `digit` times"),
-                      ("idx_ok", "table index starts at 0 and advances once per digit"),
-                      ("shift_ok", "count is shifted once per digit and the loop runs while count>0"),
-                      ("count64", "count is a 64-bit unsigned")):
-        cx.ob("C13.4-digit-loop", text, dl[key], dl.get(key + "_d", ""), short(fjd.loc))
+    cty = fjd.r["params"][0]["cty"]
+    cx.ob("C13.4-digit-loop", "count is a 64-bit unsigned", cty == "unsigned long long", cty,
+          short(fjd.loc), why="discard(n) must be exact for every 64-bit n")
+    import bitpath
+    paths = bitpath.explore(fjd, L, ENG + "::jump")
+    width = bitpath.width_of(cty) or 64
+    okp, cex, st = bitpath.check_paths(paths, width, L)
+    cx.count("digit-loop paths", len(paths))
+    cx.ob("C13.4-digit-loop", "for every count: table[j] is applied exactly digit_j(count) times "
+          "(digits in base 4), no other jump", okp,
+          cex or "%d paths (one per position of the leading one), %d symbolic calls; every bit p of "
+                 "count occurs once, as bit i of the multiplicity of jump(table[j]) with i + 2j = p"
+                 % (st.get("paths", 0), st.get("calls", 0)), short(fjd.loc),
+          why="table[j] advances by 4^j steps (C13.2), so the total advance is count exactly when "
+              "each base-4 digit is paired with its own table entry; a digit paired with another "
+              "entry makes discard(n) differ from n draws, and subsequence skips overlap")
+    cx.ob("C13.4-digit-loop", "table length * 2 >= width of count", L * 2 >= width,
+          "%d entries, %d-bit count" % (L, width), short(fjd.loc),
+          why="otherwise a large count indexes past the table")
 
     # ============================================================== 5. Weyl
     fop = one(db, ENG + "::operator()")
